@@ -193,6 +193,17 @@ example :
   ⟨Proofs.dry_f21_witness.2.2.2,
    C05_dry_world_unchanged _ _ _ _ _ _ _ _ rfl rfl (Proofs.World.noStreams_of_ok (by decide)) _ (.inl rfl)⟩
 
+/-- ... entry by entry: `/m/new/1.h` is still bound to file 0, with its content and time. -/
+example :
+    let w' := (runPlan Plan.none (mainP Proofs.dry_f21DryEnv Proofs.wholeExOrc true Proofs.dry_f21Conf Proofs.wholeExFiles [])
+      Proofs.wholeExWorld 0 []).2.1
+    Proofs.wholeExWorld.lookup Proofs.exNew Proofs.exName = some 0 ∧ w'.lookup Proofs.exNew Proofs.exName = some 0 ∧
+      w'.file 0 = Proofs.wholeExWorld.file 0 :=
+  have h := C05_dry_world_entries _ _ (C05_dry_world_unchanged Proofs.dry_f21DryEnv Proofs.wholeExOrc true Proofs.dry_f21Conf
+    Proofs.wholeExFiles [] Proofs.wholeExWorld Plan.none rfl rfl (Proofs.World.noStreams_of_ok (by decide)) _ (.inl rfl))
+    Proofs.exNew Proofs.exName 0 (by decide)
+  ⟨by decide, h.1, h.2.1⟩
+
 /-- Stdin mode: the example of `C05_exDry`: the world has `/m/inbox/new` (empty) and the file behind standard input. -/
 theorem C05_exDry_start : Proofs.World.DryStart C05_exDry Proofs.StdinExample.w0 :=
   ⟨by constructor <;> decide +kernel, by decide⟩
@@ -201,6 +212,23 @@ example : Proofs.World.PreExisting Proofs.StdinExample.w0
     (runPlan Plan.none (mainP C05_exDry Proofs.StdinExample.orc0 true Proofs.StdinExample.conf0 [] Proofs.StdinExample.input0)
       Proofs.StdinExample.w0 0 []).2.1 :=
   C05_dry_stdin_world_unchanged _ _ _ _ _ _ _ _ rfl rfl C05_exDry_start _ (.inl rfl)
+
+/-- ... entry by entry, for a world in which `/m/inbox/new` already holds a message `x` (file 1): untouched by `-d -`. -/
+def C05_exW1 : World :=
+  { Proofs.StdinExample.w0 with
+    dirs := [(Proofs.StdinExample.inbox ++ [47, 110, 101, 119], [([120], 1)])],
+    files := [(0, ⟨Proofs.StdinExample.input0, Proofs.StdinExample.input0⟩), (1, ⟨[104, 105], [104, 105]⟩)], nextFid := 2 }
+
+example :
+    let w' := (runPlan Plan.none (mainP C05_exDry Proofs.StdinExample.orc0 true Proofs.StdinExample.conf0 [] Proofs.StdinExample.input0)
+      C05_exW1 0 []).2.1
+    C05_exW1.lookup (Proofs.StdinExample.inbox ++ [47, 110, 101, 119]) [120] = some 1 ∧
+      w'.lookup (Proofs.StdinExample.inbox ++ [47, 110, 101, 119]) [120] = some 1 ∧ w'.file 1 = C05_exW1.file 1 :=
+  have h := C05_dry_stdin_world_entries _ _ (C05_dry_stdin_world_unchanged C05_exDry Proofs.StdinExample.orc0 true
+    Proofs.StdinExample.conf0 [] Proofs.StdinExample.input0 C05_exW1 Plan.none rfl rfl
+    ⟨by constructor <;> decide +kernel, by decide⟩ _ (.inl rfl))
+    (Proofs.StdinExample.inbox ++ [47, 110, 101, 119]) [120] 1 (by decide) (by decide)
+  ⟨by decide, h.1, h.2.1⟩
 
 example : ∀ q, (runPlan Plan.none (mainP C05_exDry Proofs.StdinExample.orc0 true Proofs.StdinExample.conf0 []
     Proofs.StdinExample.input0) Proofs.StdinExample.w0 0 []).2.1.dir q = Proofs.StdinExample.w0.dir q :=
